@@ -468,6 +468,7 @@ fn md5_feed_case<const CH: usize, const BITS: usize, const NS: usize, const NB: 
 //@ bound: 2 channels x 2 inter-channel samples at 12 bits (2 bytes per sample: sign extension of negative samples into the second byte); every sample value of the width; the integer delivery is split into two fills
 //@ asserts: the padded message block that reaches the MD5 compression function is byte-identical for (1) integer fills, (2) one packed-byte fill and (3) Md5::digest of the reference serialisation (channel-interleaved little-endian signed integers of the byte-rounded width) - hence equal digests; sample and frame counters agree with the number of fills
 //@ stubs: md5::compress::soft::compress_block -> recorder (md-5 itself is trusted)
+//@ oracle: c03_oracle_streaminfo_truth
 #[kani::proof]
 #[kani::unwind(70)]
 #[kani::stub(md5::compress::soft::compress_block, md5_compress_stub)]
@@ -482,6 +483,7 @@ fn c03_md5_input_bytes_12bit_stereo() {
 //@ bound: 1 channel x 3 samples at 24 bits (3 bytes per sample); every sample value of the width; the integer delivery is split into two fills
 //@ asserts: the padded message block that reaches the MD5 compression function is byte-identical for (1) integer fills, (2) one packed-byte fill and (3) Md5::digest of the reference serialisation (channel-interleaved little-endian signed integers of the byte-rounded width) - hence equal digests; sample and frame counters agree with the number of fills
 //@ stubs: md5::compress::soft::compress_block -> recorder (md-5 itself is trusted)
+//@ oracle: c03_oracle_streaminfo_truth
 #[kani::proof]
 #[kani::unwind(70)]
 #[kani::stub(md5::compress::soft::compress_block, md5_compress_stub)]
@@ -496,6 +498,7 @@ fn c03_md5_input_bytes_24bit_mono() {
 //@ bound: 1 channel x 2 samples at 8 bits, 2 channels x 2 samples at 16 and 20 bits, 3 channels x 2 samples at 24 bits
 //@ asserts: as c03_md5_input_bytes_12bit_stereo
 //@ stubs: md5::compress::soft::compress_block -> recorder
+//@ oracle: c03_oracle_streaminfo_truth
 #[kani::proof]
 #[kani::unwind(70)]
 #[kani::stub(md5::compress::soft::compress_block, md5_compress_stub)]
@@ -515,6 +518,7 @@ fn c03_md5_input_bytes_more_formats() {
 //@ bound: every format (concrete: 16 bit stereo); no fill, or empty fills only
 //@ asserts: the digest is that of the empty message (one padded block with length 0, identical to Md5::digest(&[])), zero samples, no frame number
 //@ stubs: md5::compress::soft::compress_block -> recorder
+//@ oracle: c03_oracle_streaminfo_truth
 #[kani::proof]
 #[kani::unwind(70)]
 #[kani::stub(md5::compress::soft::compress_block, md5_compress_stub)]
